@@ -65,6 +65,16 @@ func PlayGrid(tier string) []*Config {
 		add(cfg(br, 0, 1, 2, 3, false, 2, "no", "f52", 2, 0, "standard", "all"))
 		add(cfg(br, 0, 1, 2, 0, false, 0, "pot", "r52", 2, 0, "standard", "all"))
 	}
+	// degenerate blind structures
+	for _, br := range vectors(3, []int64{2, 5}) {
+		add(cfg(br, 0, 0, 2, 0, false, 0, "no", "sv:1,0,1", 2, 0, "standard", "all"))
+		add(cfg(br, 1, 0, 0, 0, false, 1, "no", "f52", 2, 0, "standard", "all"))
+		add(cfg(br, 0, 0, 0, 2, false, 2, "no", "sv:0,0,0", 2, 0, "standard", "all"))
+	}
+	for _, br := range vectors(2, []int64{1, 3, 4}) {
+		add(cfg(br, 0, 0, 2, 0, false, 0, "no", "f52", 2, 0, "standard", "all"))
+		add(cfg(br, 0, 0, 0, 0, false, 1, "no", "f52", 2, 0, "standard", "all"))
+	}
 	// short deck and 4-hole-cards variants
 	for _, br := range vectors(2, []int64{2, 5}) {
 		add(cfg(br, 0, 1, 2, 0, false, 0, "no", "f36", 2, 0, "short", "all"))
